@@ -319,14 +319,53 @@ def run_shard(spec, rec):
 def reconfigure_case(rec, R, text, q, user, registries, b, bounds_choices):
     """The same text compiled again on the SAME environment instance after its configuration changed (a function re-registered
     under the same name with another signature, or the index range changed): the verdict must follow the new configuration."""
+    import copy as _copy
     env, probes = mon.make_env({n_: (p, r, impl_for(r)) for n_, (p, r) in user.items()})
     if b:
         env.min_int_index, env.max_int_index = b
-    o1 = mon.observe(env.compile, text)
-    steps = [{"configuration": "initial", "bounds": list(b) if b else None, "compile": mon.describe_outcome(o1)[:80]}]
     sigs = dict(BUILTIN_SIGS)
     sigs.update(user)
     lo, hi = b if b else (-(2**53) + 1, 2**53 - 1)
+    steps = []
+    if R.random() < 0.4:
+        # the standard functions replaced or removed BEFORE the first compile of this environment
+        flat = "".join(text.split())
+        used_b = [n_ for n_ in ["length", "count", "value", "match", "search"] if n_ + "(" in flat]
+        for n_ in (R.sample(used_b, min(len(used_b), R.randint(1, 2))) if used_b else R.sample(["length", "count", "value", "match", "search"], 1)):
+            if R.random() < 0.35:
+                env.function_extensions.pop(n_, None)
+                sigs.pop(n_, None)
+                steps.append({"configuration": "standard function %s removed before first use" % n_})
+            else:
+                params, ret = R.choice(list(R.choice(registries).values()))
+                env.function_extensions[n_] = mon.Probe(n_, params, ret, impl_for(ret))
+                sigs[n_] = (params, ret)
+                steps.append({"configuration": "standard function %s replaced before first use by (%s)->%s" % (n_, ",".join(params), ret)})
+        rec.feat("reconfigure:builtins-before-first-use")
+    wt0, why0 = T.well_typed(q, sigs)
+    rng0, whyr0 = T.in_range(q, lo, hi)
+    o1 = mon.observe(env.compile, text)
+    rec.monitor("M-compile")
+    steps.append({"configuration": "initial", "bounds": list(b) if b else None, "compile": mon.describe_outcome(o1)[:80], "expected_valid": wt0 and rng0})
+    if o1[0] == "exc":
+        return ("reconfigured-environment:raises-" + type(o1[1]).__name__, {"query": text, "steps": steps})
+    if (o1[0] == "ok") != (wt0 and rng0):
+        return ("reconfigured-environment:" + ("rejects-valid" if wt0 and rng0 else "accepts-invalid"), {"query": text, "steps": steps, "why_invalid": why0 or whyr0})
+    if R.random() < 0.3:
+        # a copy of the configured environment gives the same verdicts as the environment it was copied from
+        how = R.choice(["copy.copy", "copy.deepcopy"])
+        try:
+            env2 = _copy.copy(env) if how == "copy.copy" else _copy.deepcopy(env)
+        except Exception:  # noqa: BLE001
+            env2 = None
+            rec.feat("reconfigure:environment-not-copyable")
+        if env2 is not None:
+            o2 = mon.observe(env2.compile, text)
+            rec.monitor("M-compile")
+            rec.feat("reconfigure:copied-environment")
+            if (o2[0] == "ok") != (o1[0] == "ok") or o2[0] == "exc":
+                steps.append({"configuration": how + " of the environment", "compile": mon.describe_outcome(o2)[:80], "expected_valid": wt0 and rng0})
+                return ("reconfigured-environment:copy-disagrees", {"query": text, "steps": steps})
     for step in range(2):
         used = [n_ for n_ in user if n_ + "(" in text.replace(" ", "").replace("\n", "").replace("\t", "").replace("\r", "")] or list(user)
         if R.random() < 0.6 and used:
